@@ -455,6 +455,22 @@ func runC19(t *testing.T, tp *simrt.Tape, keepTrace bool, gcMode bool) hx.Result
 					if _, ok := disk[c.p]; !ok {
 						continue
 					}
+					// what becomes visible through this removal (the older-format shard of the
+					// same repository) counts as on disk from now on: the watcher may load it
+					// before this task runs again
+					{
+						after := map[int]*diskFile{}
+						for k, v := range disk {
+							if k != c.p {
+								after[k] = v
+							}
+						}
+						for tok := range aliveTokens(after) {
+							if _, ok := everOnDisk[tok]; !ok {
+								everOnDisk[tok] = simrt.StepNo()
+							}
+						}
+					}
 					simos.Remove(wPath(dir, c.p))
 					if _, err := os.Stat(wPath(dir, c.p) + ".meta"); err == nil {
 						simos.Remove(wPath(dir, c.p) + ".meta")
